@@ -38,6 +38,7 @@ def run(ctx):
     c05.version_conditional_fields(ctx, P)
     c05.cumulative_count_check_agrees(ctx, P)
     c05.s2k_specifier_length_agrees(ctx, P)
+    c05.unprotected_checksum_on_every_ok_path(ctx, P)
 
 
 def unlock(ctx, P):
